@@ -969,6 +969,82 @@ def oracleC09 (lines : List String) : OResult :=
                     (if st.sends.any (fun σ => ipOf σ.dst == "bc") then ["o:bcast"] else []) ++
                     (if st.got.length > 5 then ["o:recv"] else []) }
 
+/-! ### C05 -/
+
+structure C05Host where
+  reg : Nat                    -- steps completed when the host was registered
+  last : Nat := 0              -- last elapsed() seen (monotonicity)
+  sleepFrom : Option (Nat × Nat) := none   -- (elapsed before the sleep, ms) of the sleep in progress
+  armed : Option (Nat × Nat) := none       -- set when the sleep returned: next clock must show from + ms
+
+structure C05St where
+  tick : Nat := 1000000
+  done : Nat := 0              -- completed steps
+  hosts : List C05Host := []
+  lastClock : List (Nat × Nat) := []   -- host ↦ elapsed of its latest clock op
+  res : OResult := {}
+
+def C05St.fail (st : C05St) (ln : Nat) (msg : String) : C05St :=
+  if st.res.ok then { st with res := { ok := false, line := ln, detail := msg } } else st
+
+def c05Upd (st : C05St) (h : Nat) (f : C05Host → C05Host) : C05St :=
+  { st with hosts := st.hosts.mapIdx (fun i x => if i == h then f x else x) }
+
+def c05Step (st : C05St) (x : Nat × List String × List String) : C05St :=
+  let (ln, op, obs) := x
+  match op with
+  | "ctl" :: "reg" :: _ => { st with hosts := st.hosts ++ [{ reg := st.done }] }
+  | ["ctl", "reglate"] => if obs.head? == some "ok" then { st with hosts := st.hosts ++ [{ reg := st.done }] } else st
+  | ["ctl", "step"] => { st with done := st.done + 1 }      -- emitted when the step starts
+  | ["ctl", "crash", h] => c05Upd st (hostTok h) (fun x => { x with sleepFrom := none, armed := none })
+  | ["ctl", "bounce", h] => c05Upd st (hostTok h) (fun x => { x with sleepFrom := none, armed := none })
+  | ["ctl", "simclock"] =>
+    match obs with
+    | "ok" :: kv =>
+      let e := kvNat kv "elapsed" 0
+      let ep := kvNat kv "epoch" 0
+      let st := if e != st.done * st.tick then st.fail ln s!"Sim::elapsed = {e} ns after {st.done} steps of {st.tick} ns" else st
+      if ep != 1700000000000000000 + e then st.fail ln "Sim::since_epoch is not epoch + elapsed" else st
+    | _ => st
+  | [h, "sleep", ms] =>
+    let hh := hostTok h
+    -- the OP line is logged when the sleep starts, its OBS when it returns
+    match st.hosts[hh]? with
+    | none => st
+    | some hs =>
+      match (st.lastClock.find? (·.1 == hh)) with
+      | some (_, e0) => c05Upd st hh (fun x => { x with armed := some (e0, ms.toNat?.getD 0), sleepFrom := none }) |> fun st' => let _ := hs; st'
+      | none => st
+  | [h, "clock"] =>
+    let hh := hostTok h
+    match obs, st.hosts[hh]? with
+    | "ok" :: kv, some hs =>
+      let e := kvNat kv "elapsed" 0
+      let sim := kvNat kv "sim" 0
+      let ep := kvNat kv "epoch" 0
+      -- this op runs inside step number `done` (counted when it started): done-1 steps are complete
+      let k := st.done - 1 - hs.reg
+      let st := if e < k * st.tick || e > (k + 1) * st.tick then
+          st.fail ln s!"h{hh}: elapsed() = {e} ns outside the window [{k * st.tick}, {(k + 1) * st.tick}] of the step it runs in" else st
+      let st := if sim != hs.reg * st.tick + e then st.fail ln s!"h{hh}: sim_elapsed() {sim} is not registration time {hs.reg * st.tick} + elapsed() {e}" else st
+      let st := if ep != 1700000000000000000 + sim then st.fail ln s!"h{hh}: since_epoch() is not epoch + sim_elapsed()" else st
+      let st := if e < hs.last then st.fail ln s!"h{hh}: elapsed() went backwards" else st
+      let st := match hs.armed with
+        | some (e0, ms) =>
+          if e != e0 + ms * 1000000 then st.fail ln s!"h{hh}: sleep({ms} ms) started at elapsed {e0} ns returned at {e} ns" else st
+        | none => st
+      let st := c05Upd st hh (fun x => { x with last := e, armed := none })
+      { st with lastClock := (st.lastClock.filter (·.1 != hh)) ++ [(hh, e)] }
+    | _, _ => st
+  | _ => st
+
+def oracleC05 (lines : List String) : OResult :=
+  let cfgT := match lines.find? (·.startsWith "CFG ") with | some l => toks l | none => []
+  let tick := if kvNat cfgT "tick_us" 0 > 0 then kvNat cfgT "tick_us" 0 * 1000 else kvNat cfgT "tick_ms" 1 * 1000000
+  let st := (opObsPairs lines).foldl c05Step { tick := tick }
+  let res := { st.res with cov := (if st.done > 5 then ["o:steps"] else []) ++ (if tick % 1000000 != 0 then ["o:subms"] else []) }
+  if !res.ok && tick % 1000000 != 0 then { res with pattern := "F-C05-1" } else res
+
 def oracleRaw (prop : String) (lines : List String) (modelCov : List String) : OResult :=
   match prop with
   | "C02" => oracleC02 lines modelCov
@@ -978,6 +1054,7 @@ def oracleRaw (prop : String) (lines : List String) (modelCov : List String) : O
   | "C15" => oracleC15 lines
   | "C14" => oracleC14 lines
   | "C09" => oracleC09 lines
+  | "C05" => oracleC05 lines
   | _ => {}
 
 /-- Properties whose scenario families never reach a documented panic: a panic of the
